@@ -370,6 +370,9 @@ def check_C06(ctx):
         rset.rule_set_id(ctx, cfg, F, "inprocess")
         ctx.rule("SET-ID").floor("next_sites[%s]" % cfg, 1, cfg)
         ctx.rule("SET-ID").floor("event_ids[%s]" % cfg, 2, cfg)
+        rset.rule_set_inproc(ctx, cfg, F)
+        ctx.rule("SET-INPROC").floor("add_pushes[%s]" % cfg, 2, cfg)
+        ctx.rule("SET-INPROC").floor("select_returns[%s]" % cfg, 2, cfg)
         _add_by_value(ctx, cfg, F)
     ctx.assume("mio registers SourceFd edge-triggered; epoll keeps unreturned ready entries queued; crossbeam Select is fair")
 
